@@ -20,7 +20,7 @@ from harness.props import c01 as C01
 RULE = ('signed Interests/Data with every shipped signer (digest, HMAC, RSA-2048, ECDSA P-256/384/521, Ed25519, null) and '
         'random parameters; mutants of each wire: byte substitutions at every position (3 values per position quick / all 255 '
         'thorough on a subset), every truncation, TLV-level edits (delete / duplicate / swap / insert unknown critical and '
-        'non-critical element), the value of every top-level element cut short or extended with all Lengths fixed up.  Verifiers of a key: the verify function, the shipped checker object, and the compositions union_checker(digest checker, checker) / (checker, digest checker) / (checker) -- a verifier that raises has not accepted. non-trivial = a mutant that still parses or the original; distinct by wire hash')
+        'non-critical element), the value of every top-level element cut short or extended with all Lengths fixed up.  Verifiers of a key: the verify function, the shipped checker object, and the compositions union_checker(digest checker, checker) / (checker, digest checker) / (checker) -- a verifier that raises has not accepted.  HMAC signer/verifier pairs with keys of 1..300 octets (every length around the 64-octet block and the 32-octet digest size), the value compared with an independent HMAC-SHA256 over the specified signed portion. non-trivial = a mutant that still parses or the original; distinct by wire hash')
 ASSUMPTIONS = ['unforgeability of the signature schemes / collision resistance of SHA-256 are hypotheses (C02_tamper_rejected); '
                'the run checks them empirically against pycryptodome for the generated mutants']
 
@@ -285,3 +285,36 @@ def run(ctx):
                                                            hop_limit=None, forwarding_hint=[]), G.rand_bytes(rng, 170), sg, 'synthetic')
         if r:
             check_packet(ctx, M, 'interest', r[0], r[1], None, 'synthetic', mutate=False)
+    # signer/verifier pairs over the KEY dimension: HMAC keys of every length around the SHA-256 block size (RFC 2104 treats
+    # keys longer than the block differently) and the digest size; the value written must be HMAC-SHA256(key, signed portion)
+    # by an independent computation, and the matching verifiers accept it
+    import hmac as _hmac
+    from ndn.security.signer import HmacSha256Signer
+    from ndn.security.validator import known_key_validator as KV
+    from ndn.encoding import parse_data, parse_interest
+    kl = [G.tlv(8, b'key'), G.tlv(8, b'KEY'), G.tlv(8, b'\x01')]
+    for klen in [1, 4, 16, 20, 31, 32, 33, 63, 64, 65, 100, 127, 128, 129, 131, 300]:
+        key = G.rand_bytes(rng, klen)
+        sg = HmacSha256Signer(kl, key)
+        ck = KV.HmacChecker.from_key('/key', key)
+
+        def verify(p, key=key):
+            return KV.verify_hmac(key, p)
+        verify.checker = ck
+        label = f'hmac-key{klen}'
+        for kind in ('data', 'interest'):
+            if kind == 'data':
+                r = C01.one_data(ctx, M, [G.tlv(8, b'h'), G.tlv(8, bytes([klen & 255]))], {}, G.rand_bytes(rng, 20), sg, label)
+            else:
+                r = C01.one_interest(ctx, M, [G.tlv(8, b'h')], dict(can_be_prefix=False, must_be_fresh=False, nonce=2, lifetime=None,
+                                                                    hop_limit=None, forwarding_hint=[]), b'pp', sg, label)
+            if not r:
+                continue
+            wire = r[0]
+            spec = opt(M([10 if kind == 'data' else 11, value_of(wire)]))
+            ptrs = (parse_data if kind == 'data' else parse_interest)(wire)[3]
+            sv = None if ptrs.signature_value_buf is None else bytes(ptrs.signature_value_buf)
+            if spec is None or sv != _hmac.new(key, spec, 'sha256').digest():
+                ctx.violation(f'make_{kind}', 'hmac-value-not-spec',
+                              f'{klen}-octet key: SignatureValue is not HMAC-SHA256(key, signed portion)', {'kind': kind, 'key': key, 'wire': wire})
+            check_packet(ctx, M, kind, wire, r[1], verify, label, mutate=(klen in (64, 65)))
